@@ -74,7 +74,11 @@ def main():
             okb = out.count('Finished') >= 2
             meta['confirmed']['compiles_default_and_all_features'] = okb
             meta['ran'].append('changed tree: cargo build --offline [--all-features] -> %s' % ('ok' if okb else 'FAIL'))
-            rc, out = sh("cargo nextest run --workspace --offline --no-fail-fast -E 'not binary(seed_demo)' 2>&1 | tail -6", cwd=wt, env=env)
+            # the suite is run without the demo file present: under --workspace feature unification a demo
+            # written against the default feature set may not even compile, which would fail the build
+            os.remove(wt + '/tests/seed_demo.rs')
+            rc, out = sh("cargo nextest run --workspace --offline --no-fail-fast --build-jobs 8 --test-threads 8 2>&1 | tail -6", cwd=wt, env=env)
+            shutil.copy(demo, wt + '/tests/seed_demo.rs')
             m = re.search(r'(\d+) tests run: (\d+) passed', out)
             oks = bool(m) and m.group(1) == m.group(2) and 'failed' not in out.split('Summary')[-1]
             meta['confirmed']['existing_suite_passes_with_change'] = oks
